@@ -510,6 +510,12 @@ def generate(seed, prop, tier, index=0):
         for _ in range(rng.choice([1, 2, 3])):
             add(rng.choice(["robot.disabledPeriodic", "robot.disabledPeriodic", "robot.disabledInit", "robot.teleopInit", "robot.testPeriodic"]),
                 rng.randint(1, 8), ["utia", int(rng.random() < 0.5)])
+    # ---- control_loop_wait_time assigned at run time: the next mode session runs at the new period
+    if rng.random() < (0.25 if prop == "C05" else 0.05):
+        for _ in range(rng.choice([1, 2])):
+            newp = (rng.choice([1, 2, 3, 4]) / 64.0) if cfg["dyadic"] else rng.choice([0.02, 0.01, 0.005, 0.05, 0.025])
+            add(rng.choice(["wait", "wait", "robot.disabledPeriodic", "robot.teleopPeriodic", "robot.robotPeriodic", "robot.teleopInit", "robot.autonomousInit"]
+                           + sites["execute"]), rng.randint(1, max(2, cap - 1)), ["period", newp])
     # ---- FMS cable plugged / unplugged at a wake-up
     if rng.random() < 0.15:
         add("wait", rng.randint(1, cap), ["ds", 1, rng.choice(["teleop", "auto"]), int(rng.random() < 0.5)])
@@ -999,6 +1005,10 @@ class _Sim:
             elif k == "autosel":
                 self.autosel_pub.set(a[1])
                 self.fault("dashboard_auto_selector")
+            elif k == "period":
+                if self.robot is not None:
+                    self.robot.control_loop_wait_time = a[1]
+                    self.fault("control_loop_wait_time_changed_at_run_time")
             elif k == "utia":
                 if self.robot is not None:
                     self.robot.use_teleop_in_autonomous = bool(a[1])
